@@ -733,4 +733,64 @@ theorem forall₂_exists_right {α β : Type} {R : α → β → Prop} {as : Lis
       exact ⟨b0, List.mem_cons_of_mem _ hb0, h0⟩
 
 
+/-! ### frame attributes (F35): plumbing -/
+
+theorem serialize_none_filter {cfg : Cfg} {ord : List Key} {p : ℕ} {rs : List Region}
+    (h : serialize cfg ord p rs = .ok none) : rs.filter (fun r => decide (Expressible r)) = [] := by
+  unfold serialize at h
+  by_cases hrs : rs = []
+  · subst hrs; rfl
+  · rw [if_neg hrs] at h
+    cases hc : collect (serializeRegion cfg) rs with
+    | error e => simp [hc] at h
+    | ok ds =>
+      rw [hc] at h
+      cases ds with
+      | nil =>
+        have F1 := collect_forall₂ _ rs [] hc
+        rw [kept_eq_filter hc] at F1
+        exact List.forall₂_nil_right_iff.mp F1
+      | cons d ds' => simp at h
+
+/-- a successful structured round trip: either nothing was written, or writer and reader both
+succeeded. -/
+theorem roundTrip_ok {cfg : Cfg} {ord : List Key} {sky : ℚ → ℚ} {p : ℕ} {rs out : List Region}
+    (h : roundTrip cfg ord sky p rs = .ok out) :
+    (out = [] ∧ rs.filter (fun r => decide (Expressible r)) = []) ∨
+      ∃ o, serialize cfg ord p rs = .ok (some o) ∧ parse (toRaw sky o) = .ok out := by
+  unfold roundTrip at h
+  cases hs : serialize cfg ord p rs with
+  | error e => simp [hs] at h
+  | ok oo =>
+    cases oo with
+    | none =>
+      simp only [hs, Except.ok.injEq] at h
+      exact Or.inl ⟨h.symm, serialize_none_filter hs⟩
+    | some o =>
+      simp only [hs] at h
+      exact Or.inr ⟨o, rfl, h⟩
+
+theorem stdRegion_of_default (T : AttrMap) (r : Region) (h : T r = r.coords) : stdRegion T r = r := by
+  unfold stdRegion
+  rw [h]
+
+theorem standardize_eq_map (cfg : Cfg) (T : AttrMap) (rs : List Region)
+    (h : cfg.stdAttrs = true ∨ ∀ r ∈ rs, T r = r.coords) : standardize cfg T rs = rs.map (stdRegion T) := by
+  unfold standardize
+  by_cases hc : cfg.stdAttrs = true
+  · rw [if_pos hc]
+  · rw [if_neg hc]
+    rcases h with h | h
+    · exact absurd h hc
+    · calc rs = rs.map id := (List.map_id rs).symm
+        _ = rs.map (stdRegion T) :=
+          List.map_congr_left (fun r hr => (stdRegion_of_default T r (h r hr)).symm)
+
+theorem filter_expressible_map_std (T : AttrMap) (rs : List Region) :
+    (rs.map (stdRegion T)).filter (fun r => decide (Expressible r)) =
+      (rs.filter (fun r => decide (Expressible r))).map (stdRegion T) := by
+  rw [List.filter_map]
+  rfl
+
+
 end RegionsVerif.Impl.Ds9
